@@ -2,13 +2,15 @@
  *
  * usage: conf_replay <scriptfile> [first]
  * Built twice: plain (C09 replay of ConfParse.tla behaviours) and with -DCONF_WRAP plus
- * -Wl,--wrap=system,--wrap=fork,--wrap=vfork,--wrap=execve,--wrap=popen,--wrap=spiftool_temp_file (C11 driver:
- * process creation is logged and refused, temp files are observed, 5 s CPU watchdog per input).
+ * -Wl,--wrap=system,--wrap=fork,--wrap=vfork,--wrap=execve,--wrap=popen,--wrap=spiftool_temp_file,--wrap=malloc,
+ * --wrap=realloc,--wrap=free,--wrap=strdup (C11 driver: process creation is logged and refused, temp files are observed,
+ * allocation sites between init and free are remembered, 5 s CPU watchdog per input).
  *
  * Every script runs in a fresh private directory below the current directory (the run dir).
  * Steps (byte strings travel as [n,n,...], "-" = NULL):
  *   init                          spifconf_init_subsystem()
  *   free                          spifconf_free_subsystem()        ret = heap bytes still allocated since init
+ *                                 (CONF_WRAP: state = {leaks=[functions that allocated them],snap={..}})
  *   file <name> <bytes>           creates a file with exactly these bytes
  *   mkdir <name>
  *   setenv <name> <value|->
@@ -29,9 +31,6 @@
 #include <sys/stat.h>
 #include <sys/time.h>
 #include <sys/resource.h>
-#ifdef VH_ASAN
-# include <sanitizer/lsan_interface.h>
-#endif
 
 struct spifconf_verif {
     unsigned int ctx_idx, ctx_cnt;
@@ -148,6 +147,74 @@ int __wrap_spiftool_temp_file(spif_charptr_t t, size_t len) {
         ntemp++;
     }
     return fd;
+}
+/* allocation-site tracking between init and free: who allocated what spifconf_free_subsystem() left behind
+ * (malloc/realloc/free/strdup of the library and harness objects are wrapped at link time; the verdict itself is the
+ * allocator's byte count, this table only names the origin for the finding key) */
+#define LT_SIZE 65536
+static struct { void *p; void *ra[5]; } lt[LT_SIZE];
+static int lt_on, lt_count;
+extern void *__real_malloc(size_t); extern void *__real_realloc(void *, size_t); extern void __real_free(void *); extern char *__real_strdup(const char *);
+static void lt_add(void *p, void **fp) {
+    unsigned h = (unsigned) (((uintptr_t) p >> 4) * 2654435761u) % LT_SIZE; int i, k;
+    if (!p || !lt_on || lt_count > LT_SIZE / 2) return;
+    for (i = 0; i < LT_SIZE && lt[h].p; i++) h = (h + 1) % LT_SIZE;
+    lt[h].p = p; lt_count++;
+    for (k = 0; k < 5; k++) {
+        void **next;
+        lt[h].ra[k] = NULL;
+        if (!fp) continue;
+        lt[h].ra[k] = fp[1];
+        next = (void **) fp[0];
+        fp = (next > fp && (char *) next - (char *) fp < (1 << 20)) ? next : NULL;
+    }
+}
+static void lt_del(void *p) {
+    unsigned h = (unsigned) (((uintptr_t) p >> 4) * 2654435761u) % LT_SIZE; int i;
+    if (!p || !lt_count) return;
+    for (i = 0; i < LT_SIZE && lt[h].p; i++, h = (h + 1) % LT_SIZE) {
+        if (lt[h].p == p) {                       /* delete and re-insert the rest of the cluster */
+            unsigned j = (h + 1) % LT_SIZE;
+            lt[h].p = NULL; lt_count--;
+            while (lt[j].p) {
+                void *q = lt[j].p; void *ra[5]; unsigned g; int k;
+                memcpy(ra, lt[j].ra, sizeof(ra));
+                lt[j].p = NULL;
+                g = (unsigned) (((uintptr_t) q >> 4) * 2654435761u) % LT_SIZE;
+                while (lt[g].p) g = (g + 1) % LT_SIZE;
+                lt[g].p = q; for (k = 0; k < 5; k++) lt[g].ra[k] = ra[k];
+                j = (j + 1) % LT_SIZE;
+            }
+            return;
+        }
+    }
+}
+void *__wrap_malloc(size_t n) { void *p = __real_malloc(n); lt_add(p, (void **) __builtin_frame_address(0)); return p; }
+char *__wrap_strdup(const char *s) { char *p = __real_strdup(s); lt_add(p, (void **) __builtin_frame_address(0)); return p; }
+void *__wrap_realloc(void *o, size_t n) { void *p; lt_del(o); p = __real_realloc(o, n); lt_add(p, (void **) __builtin_frame_address(0)); return p; }
+void __wrap_free(void *p) { lt_del(p); __real_free(p); }
+/* names of the library functions that allocated the blocks still live: "[f1,f2]" */
+static void sb_leaks(vh_sb *b) {
+    static char names[16][64]; int nn = 0, i, k, j;
+    for (i = 0; i < LT_SIZE && nn < 16; i++) {
+        if (!lt[i].p) continue;
+        for (k = 0; k < 5; k++) {
+            char d[512]; char *sp;
+            if (!lt[i].ra[k]) break;
+            d[0] = 0;
+            __sanitizer_symbolize_pc(lt[i].ra[k], "%f %s", d, sizeof(d));
+            sp = strchr(d, ' ');
+            if (!sp || !strstr(sp, "/src/") || !strncmp(d, "spiftool_get_word", 17)) continue;
+            *sp = 0;
+            for (j = 0; j < nn; j++) if (!strcmp(names[j], d)) break;
+            if (j == nn) { strncpy(names[nn], d, 63); names[nn][63] = 0; nn++; }
+            break;
+        }
+    }
+    sb_putc(b, '[');
+    for (i = 0; i < nn; i++) { if (i) sb_putc(b, ','); sb_puts(b, names[i]); }
+    sb_putc(b, ']');
+    memset(lt, 0, sizeof(lt)); lt_count = 0;
 }
 static void cpu_alarm(int sig) { (void) sig; vh_emit_raw('H'); _exit(3); }
 static void cpu_watch(int secs) {
@@ -274,6 +341,9 @@ static const char *vh_step(const vh_step_t *st, vh_sb *ret, vh_sb *state) {
     sb_putc(state, '-');
     if (!strcmp(op, "init")) {
         heap_at_init = vh_heap();
+#ifdef CONF_WRAP
+        memset(lt, 0, sizeof(lt)); lt_count = 0; lt_on = 1;
+#endif
         spifconf_init_subsystem();
         inited = 1;
         sb_bool(ret, 1);
@@ -284,15 +354,9 @@ static const char *vh_step(const vh_step_t *st, vh_sb *ret, vh_sb *state) {
         spifconf_free_subsystem();
         inited = 0;
         sb_int(ret, (long) vh_heap() - (long) heap_at_init);
-#ifdef VH_ASAN
-        if (getenv("VH_LEAKCHECK") && vh_heap() != heap_at_init) {       /* second pass of the C11 check: who allocated what was left */
-            fprintf(stderr, "LEAKCHECK %ld\n", vh_cur_sid);
-            __lsan_do_recoverable_leak_check();
-            fprintf(stderr, "LEAKCHECK-END %ld\n", vh_cur_sid);
-        }
-#endif
 #ifdef CONF_WRAP
-        sb_reset(state); sb_snap(state);
+        lt_on = 0;
+        sb_reset(state); sb_puts(state, "{leaks="); sb_leaks(state); sb_puts(state, ",snap="); sb_snap(state); sb_putc(state, '}');
 #endif
     } else if (!strcmp(op, "file")) {
         size_t n; char *name = argstr(st->args[0]); unsigned char *data = cr_bytes(st->args[1], &n, 0);
